@@ -81,7 +81,7 @@ def load_attr(eng, obj, name, st, line=0):
                 raise Unsupported(f"method {name} of {type(obj).__name__} holding symbolic items")
             yield st, BoundMethod(obj, m)
             return
-        mm_ = eng.method_models.get((type(obj), name)) if not isinstance(obj, (type, types.ModuleType)) else None
+        mm_ = eng.method_models.get((type(obj), name)) if not isinstance(obj, (type, types.ModuleType, dict, list, tuple, set, frozenset, str, bytes)) else None
         if mm_ is not None:
             # a concrete library value (e.g. the wrapped value of a module-level EMPTY constant): use the model of its
             # class on the lifted object, so that symbolic arguments are handled
